@@ -82,3 +82,50 @@ pub fn open_data(to: &mut PeerCrypto<NodeInfo>, dgram: &[u8]) -> Option<Vec<u8>>
         _ => None,
     }
 }
+
+/// Handshake over a reliable network with a chosen opening: "A" / "B" initiates, or "both" simultaneously (role
+/// negotiation).  Returns the two established ends plus the sealed datagrams still in flight (first rotation message).
+/// `on_call(end)` is invoked after every call into an end (used to attribute seal-log entries).
+pub fn handshake_mode(
+    crypto: &[Crypto; 2], mode: &str, mut on_call: impl FnMut(usize),
+) -> Option<(PeerCrypto<NodeInfo>, PeerCrypto<NodeInfo>, Vec<(usize, Vec<u8>)>)> {
+    let mut ends = [crypto[0].peer_instance(node_info(1)), crypto[1].peer_instance(node_info(2))];
+    let mut queue: std::collections::VecDeque<(usize, Vec<u8>)> = Default::default();
+    let mut m = MsgBuffer::new(100);
+    if mode == "A" || mode == "both" {
+        m.clear();
+        ends[0].initialize(&mut m).unwrap();
+        on_call(0);
+        queue.push_back((1, m.message().to_vec()));
+    }
+    if mode == "B" || mode == "both" {
+        m.clear();
+        ends[1].initialize(&mut m).unwrap();
+        on_call(1);
+        queue.push_back((0, m.message().to_vec()));
+    }
+    let mut rest = vec![];
+    let mut steps = 0;
+    while let Some((to, bytes)) = queue.pop_front() {
+        steps += 1;
+        if steps > 40 {
+            return None;
+        }
+        if bytes[0] != 0xff {
+            // sealed datagram (first rotation message): leave it to the caller
+            rest.push((to, bytes));
+            continue;
+        }
+        let o = feed(&mut ends[to], &bytes);
+        on_call(to);
+        if o.res.is_ok() && !o.out.is_empty() {
+            queue.push_back((1 - to, o.out));
+        }
+    }
+    if ends[0].is_ready() && ends[1].is_ready() {
+        let [a, b] = ends;
+        Some((a, b, rest))
+    } else {
+        None
+    }
+}
